@@ -314,6 +314,9 @@ fn main() {
                 .expect("exec thread died");
             println!("{}", serde_json::to_string(&log).unwrap());
         }
+        "vm-worker" => {
+            std::thread::Builder::new().name("vmw".into()).stack_size(256 << 20).spawn(mon::c11::vm_worker).unwrap().join().ok();
+        }
         "legacy-plan" => {
             if args.len() < 4 {
                 usage();
